@@ -9,7 +9,8 @@ import (
 
 // C17: the two conversions of package types, with the tables loaded the way the package's own
 // initialisation does it for a process started in the repository root (types.SetIsTest("main"):
-// ./types/uao250-*.big5.txt, then initBig5).
+// ./types/uao250-*.big5.txt, then initBig5). With VERIF_C17_FRESH set the tables are left as a new process
+// has them (empty) and ops 10/11 go through the start-up path themselves (c17init.go).
 func init() {
 	register("C17", &propDriver{
 		setup: func() {
@@ -21,6 +22,9 @@ func init() {
 				fmt.Fprintln(os.Stderr, "C17: chdir:", err)
 				os.Exit(2)
 			}
+			if os.Getenv("VERIF_C17_FRESH") != "" {
+				return // ops 10/11 (c17init.go): the scenario itself initialises the tables, in this fresh process
+			}
 			types.SetIsTest("main")
 		},
 		run: func(args [][]string) []string {
@@ -29,6 +33,10 @@ func init() {
 				return okb([]byte(types.Big5ToUtf8(ab(args[1]))))
 			case 2: // Utf8ToBig5(string(bytes)) -> bytes
 				return okb(types.Utf8ToBig5(string(ab(args[1]))))
+			case 10: // init history, then conversions on the resulting tables (fresh process only)
+				return c17InitScenario(args)
+			case 11: // init history, then ptttype.InitConfig steps: BBSNAME / BBSNAME_BIG5 (fresh process only)
+				return c17BBSNameScenario(args)
 			}
 			return []string{"9"}
 		},
